@@ -47,6 +47,13 @@ func (c *Ctx) ruleErrDrop(rule string, pkgs []string, isTarget func(key string, 
 					R.Exempt(rule, name, P.Pos(call), why)
 					return
 				}
+				// per-site acceptance: caller + callee + the argument written
+				if len(call.Args) == 1 {
+					if why, ok := accept[fi.Key+" -> "+key+" ("+exprStr(unparen(call.Args[0]))+")"]; ok {
+						R.Exempt(rule, name, P.Pos(call), why)
+						return
+					}
+				}
 				R.Bad(rule, name, P.Pos(call), "error result of "+key+" is dropped ("+where+"): a failure (malformed input, exceeded limit) in the callee is silently ignored")
 			}
 			_ = visit
